@@ -611,6 +611,11 @@ def mon_C09(case, obs):
                             % (len(free), o['nprocs'], n)))
         if e[0] not in ('tick', 'tick_close') and n and len(o['workers']) > len(obs[n - 1]['workers']):
             out.append(('C09:worker-started-outside-supervision', 'event %s' % e))
+        if e[0] == 'tick' and o['exc'] == 'RestartFreqExceeded' and not any(ev[0] in ('exit', 'scan', 'terminate_job', 'scan_begin') for ev in case['events'][:n]) \
+                and not any(ob['sigs'] for ob in obs[:n]):
+            out.append(('C09:pass-refused-although-no-worker-ever-exited',
+                        'the supervision pass at event %d raised RestartFreqExceeded in a history without a single worker exit (pool size %s, %d workers)'
+                        % (n, o['nprocs'], len(o['workers']))))
     return out
 
 
@@ -686,6 +691,10 @@ def mon_C11(case, obs):
             after = {w[0] for w in o['workers']}
             gone = before - after
             started = after - before
+            if not gone and o['R'] > obs[n - 1]['R']:
+                out.append(('C11:budget-charged-although-no-worker-exited',
+                            'the pass at event %d reaped nobody (started %d worker(s)) and R went %d -> %d'
+                            % (n, len(started), obs[n - 1]['R'], o['R'])))
             if gone and all(clean_exit.get(p) is True for p in gone) and len(started) <= len(gone) \
                     and o['R'] > obs[n - 1]['R']:
                 out.append(('C11:clean-exit-consumed-budget', 'workers %s exited clean/recycle, R %d -> %d at event %d'
@@ -749,6 +758,41 @@ def mon_known_C05(case, obs):
                     out.append(('C05:limit-without-scanner',
                                 'job %d has hard limit %s (accepted %s, now %s) but the pool has no timeout scanner'
                                 % (k, params[k][1], t, o['now'])))
+    return out
+
+
+def mon_known_C10_two_jobs(case, obs):
+    """recorded defect: the pass gives ONE slot back per reaped worker; a worker that held two
+    slot-holding jobs whose slots were still out (one failed by the timeout scan or still
+    unresolved, and a second one it had gone on to) leaks the other slot for good"""
+    out = []
+    owner = {}
+    slot = set()
+    released = set()
+    k = 0
+    for n, (e, o) in enumerate(zip(case['events'], obs)):
+        if e[0] in ('apply', 'applyq', 'map', 'imap', 'imapu') and o['ret'] is None and not o['exc']:
+            if e[0] in ('apply', 'applyq'):
+                a = list(e[1:]) + [None] * 4
+                if (case['cfg'].get('putlocks', False) if a[3] is None else a[3]):
+                    slot.add(k)
+            k += 1
+        if e[0] == 'ack' and e[2] is None and n and e[1] < len(obs[n - 1]['jobs']) and obs[n - 1]['jobs'][e[1]]['incache']:
+            owner.setdefault(e[1], e[3])
+        if e[0] == 'ready' and n and e[1] < len(obs[n - 1]['jobs']):
+            pj = obs[n - 1]['jobs'][e[1]]
+            if pj['incache'] and not pj['ready']:
+                released.add(e[1])             # its slot came back with the result
+        if e[0] == 'tick' and n and not o['exc']:
+            gone = {w[0] for w in obs[n - 1]['workers']} - {w[0] for w in o['workers']}
+            for p in gone:
+                held = [j for j in sorted(slot) if owner.get(j) == p and j not in released]
+                if len(held) >= 2:
+                    out.append(('C10:slot-leaked-when-a-reaped-worker-held-two-jobs',
+                                'the pass at event %d reaps worker %d, which held the slots of jobs %s, and gives one slot back'
+                                % (n, p, held)))
+                for j in held:
+                    released.add(j)
     return out
 
 
@@ -1017,6 +1061,18 @@ def mon_C10_quiet_end(case, obs):
     return []
 
 
+def sweep_grow_budget():
+    """grow() on a pool with a small restart budget, supervised by passes that reap nobody (and by
+    passes that reap a clean / an abnormal exit at the same time): added workers are not restarts"""
+    out = []
+    for mr in (1, 2, 3):
+        for k in (1, 2, 4):
+            for extra in ([], [['exit', 0, 155]], [['exit', 0, -9]], [['shrink', 1]]):
+                ev = [['grow', k]] + extra + [['tick'], ['tick'], ['grow', 1], ['tick']]
+                out.append(dict(cfg=dict(n=2, max_restarts=mr, max_restart_freq=60), events=ev))
+    return out
+
+
 def sweep_shutdown_loss():
     """a worker dies with a job while the pool is closed (before or after close()); the result
     handler's drain loop (join_shutdown) is what turns the expired marker into a failure, also when no
@@ -1116,7 +1172,7 @@ def mon_C01_unresolved(case, obs):
 
 SWEEPS = dict(C01=lambda: sweep_loss()[::3] + sweep_limits()[::3] + sweep_terminate_job() + sweep_late_result()[::2] + sweep_two_handles(), C04=lambda: sweep_loss() + sweep_terminate_job() + sweep_shutdown_loss() + sweep_late_result() + sweep_two_handles(), C05=sweep_limits, C06=sweep_limits,
               C07=lambda: sweep_close_in_pass() + sweep_shutdown_loss() + sweep_empty_after(),
-              C08=lambda: sweep_loss()[::6] + sweep_terminate_job()[::2] + sweep_close_in_pass()[::3], C09=lambda: sweep_loss()[::6] + sweep_resize() + sweep_close_in_pass()[::2],
+              C08=lambda: sweep_loss()[::6] + sweep_terminate_job()[::2] + sweep_close_in_pass()[::3], C09=lambda: sweep_loss()[::6] + sweep_resize() + sweep_close_in_pass()[::2] + sweep_grow_budget(), C11=sweep_grow_budget,
               C10=lambda: sweep_resize() + sweep_timeout_slots())
 
 
@@ -1406,6 +1462,171 @@ def crash_closed_check(res, prop, n, allow_early=True):
                 crash_closed_mismatches=len(codes))
 
 
+HEADER_LIMIT = '''From Coq Require Import ZArith List Bool.
+From BV Require Import Lib.Cases Model.Pool Model.PoolSys Model.PoolCrash Model.PoolLimit.
+Import ListNotations. Open Scope Z_scope.
+Definition check_case := PoolLimit.check_limit_case.'''
+
+
+def lstep_coq(st):
+    k = st[0]
+    if k == 'submit':
+        return 'LSubmit'
+    if k == 'put':
+        return 'LPut'
+    if k == 'take':
+        return '(LTake %s)' % cz(st[1])
+    if k == 'finish':
+        return '(LFinish %s)' % cz(st[1])
+    if k == 'recv':
+        return 'LRecv'
+    if k == 'scan':
+        return '(LScan %s)' % cbool(st[1])
+    if k == 'scan_racy':
+        return '(LScanRacy %s)' % cbool(st[1])
+    if k == 'tick':
+        return 'LTick'
+    if k == 'advance':
+        return '(LAdvance %s)' % cz(st[1])
+    raise ValueError(st)
+
+
+def limit_closed_check(res, prop, n, allow_racy=True):
+    """the closed composition WITH HARD TIME LIMITS (coq/Model/PoolLimit.v; invariant, exactness of
+    the scan, liveness are proved of it in Proofs/PoolLimitProofs.v): random schedules of client
+    (every call with its own limit or none), queues, live workers, result pipe, passes of the REAL
+    timeout handler (lingering or not), supervision passes and clock advances, pool sizes from one,
+    with the real parent-side code as the parent.  The model must allow every step, issue the same
+    parent events, agree on whether anything is left to do and on every observation
+    (`<prop>:limit-closed-system-differs`).  Monitors on the implementation's own observations, for
+    schedules without a racy scan: an overdue accepted job a scan did not fail; a job timed out by
+    something that is not a scan, before its limit, without a limit, or with a limit that is not its
+    own; signals other than TERM (+KILL iff lingering) to the owners of the jobs just failed; pool not
+    at its size after a pass; a complete end with a job unresolved / with the wrong outcome, a slot
+    missing or the pool not at its size.  Schedules with a racy scan (allow_racy) are only compared
+    with the model; what the racy scan costs is counted in the coverage (limit_closed_racy_*)."""
+    rng = random.Random(res.seed * 6151 + sum(map(ord, prop)) + 29)
+    reqs = []
+    for k in range(n):
+        hard = rng.choice([None, None, 3, 6])
+        cfg = dict(n=rng.choice([1, 1, 2, 2, 3]), putlocks=rng.random() < 0.7, hard=hard,
+                   enable_timeouts=(hard is None and rng.random() < 0.8), lost=rng.choice([None, 3]))
+        nj = rng.choice([1, 2, 3, 5, 8])
+        spec = dict(seed=rng.randrange(1 << 30), lims=[rng.choice([None, None, 2, 4, 7, 0]) for _ in range(nj)],
+                    racy=allow_racy and rng.random() < 0.3, idle_prob=rng.choice([0.0, 0.03, 0.08]),
+                    scan_prob=rng.choice([0.3, 0.7, 1.0]), adv_prob=rng.choice([0.2, 0.5, 0.8]),
+                    stop_after=rng.choice([60, 150, 400, 400]))
+        if rng.random() < 0.3:
+            spec['bad'] = sorted(rng.sample(range(nj), rng.randrange(0, nj + 1)))
+        reqs.append(dict(cfg=cfg, limit=spec))
+    outs = []
+    for part in core.chunks(reqs, 200):
+        outs += run_impl(part, timeout=600)
+    terms = []
+    steps = nmax = nscans = ntl = nracy = nleak = ninnocent = 0
+
+    def alarm(sig, what, r, o):
+        res.alarms.append(dict(signature=sig, what='closed system with hard limits: ' + what,
+                               replay=dict(kind='pool-closed', cfg=r['cfg'], limit=r['limit'], sched=o['sched'],
+                                           events=o['events'])))
+
+    for r, o in zip(reqs, outs):
+        sp = r['limit']
+        cfg = r['cfg']
+        steps += len(o['sched'])
+        nmax += bool(o['maximal'])
+        nracy += bool(o['racy'])
+        nscans += len(o['marks'])
+        terms.append('((%s, %s, %s, %s, %s, %s, %s) : PoolLimit.limit_case)' % (
+            cfg_coq(cfg), clist(sp['lims'], copt), clist(sp.get('bad', []), cz),
+            clist(o['sched'], lstep_coq), clist(o['events'], ev_coq), clist(o['obs'], obs_coq), cbool(o['maximal'])))
+        eff = [(h or cfg['hard']) for h in sp['lims']]
+        last = o['obs'][-1] if o['obs'] else None
+        timed = set(k for k, j in enumerate(last['jobs']) if j['val'] and j['val'][0] == 'timelimit') if last else set()
+        ntl += len(timed)
+        if o['racy']:
+            if o['maximal'] and last is not None:
+                leak = bool(cfg['putlocks'] and last['sem'][0] != last['sem'][1])
+                nleak += leak
+                ninnocent += sum(1 for j in last['jobs'] if j['val'] and j['val'][0] == 'lost')
+                if leak:
+                    # the recorded defect (one slot back per reaped worker, whatever it held)
+                    alarm('C10:slot-leaked-when-a-reaped-worker-held-two-jobs',
+                          'after a racy scan (the worker it killed had finished the overdue job and gone on to the next one) the quiet end has %d of %d slots free'
+                          % (last['sem'][0], last['sem'][1]), r, o)
+            continue
+        # ---- monitors (schedules without a racy scan: what the theorems promise)
+        scan_at = dict((m[0], m) for m in o['marks'])
+        seen = set()
+        for i, ob in enumerate(o['obs']):
+            m = scan_at.get(i)
+            for k, j in enumerate(ob['jobs']):
+                if j['val'] and j['val'][0] == 'timelimit' and k not in seen:
+                    seen.add(k)
+                    if m is None or k not in [d[0] for d in m[2]]:
+                        alarm(prop + ':job-timed-out-early-or-without-limit',
+                              'job %d (limit %s, pool default %s) is failed with TimeLimitExceeded by event %d %s' % (
+                                  k, sp['lims'][k], cfg['hard'], i, o['events'][i]), r, o)
+                    elif j['val'][1] != eff[k] or j['cb'][1] != 1 or j['cb'][0] != 0:
+                        alarm(prop + ':time-limit-error-names-wrong-limit',
+                              'job %d (own limit %s, default %s) reports %s callbacks %s' % (k, sp['lims'][k], cfg['hard'], j['val'], j['cb'][:2]), r, o)
+                if j['val'] and j['val'][0] == 'lost':
+                    alarm(prop + ':job-lost-without-crash', 'job %d is reported lost (%s): nobody crashed' % (k, j['val']), r, o)
+            if m is not None:
+                lingers = bool(o['events'][i][1])
+                for k, owner in m[2]:
+                    j = ob['jobs'][k]
+                    if not (j['ready'] and j['val'] and j['val'][0] == 'timelimit'):
+                        alarm(prop + ':overdue-job-not-failed-by-scan',
+                              'job %d (accepted, limit %s elapsed at %s) is left as %s by the scan at event %d' % (k, eff[k], m[4], j['val'], i), r, o)
+                want = []
+                for k, owner in m[2]:
+                    want.append([owner, 15])
+                    if lingers:
+                        want.append([owner, 9])
+                if ob['sigs'] != want:
+                    alarm(prop + ':scan-signals-wrong-worker',
+                          'scan at event %d (overdue jobs and owners %s, lingers=%s) sent %s' % (i, m[2], lingers, ob['sigs']), r, o)
+            elif ob['sigs']:
+                alarm(prop + ':scan-signals-wrong-worker', 'event %d %s sent signals %s' % (i, o['events'][i], ob['sigs']), r, o)
+            if o['events'][i][0] == 'tick' and len(ob['workers']) != cfg['n']:
+                alarm(prop + ':pool-not-at-size-after-pass', '%d workers for size %d after the pass at event %d' % (len(ob['workers']), cfg['n'], i), r, o)
+        if o['maximal'] and last is not None:
+            bad = []
+            if len(last['jobs']) != len(sp['lims']):
+                bad.append('%d jobs exist, %d calls made' % (len(last['jobs']), len(sp['lims'])))
+            for k, j in enumerate(last['jobs']):
+                if not j['ready']:
+                    bad.append('job %d is unresolved at a complete end (later job not served)' % k)
+                elif k in timed:
+                    if j['val'] != ['timelimit', eff[k]]:
+                        bad.append('job %d: %s for limit %s' % (k, j['val'], eff[k]))
+                else:
+                    isbad = k in sp.get('bad', ())
+                    if j['val'] != (['exc', k] if isbad else ['ok', k]) or j['cb'][0] != (0 if isbad else 1) or j['cb'][1] != (1 if isbad else 0):
+                        bad.append('job %d: value %s callbacks %s' % (k, j['val'], j['cb'][:2]))
+            if len(last['workers']) != cfg['n']:
+                bad.append('%d workers for size %d' % (len(last['workers']), cfg['n']))
+            if cfg['putlocks'] and last['sem'][0] != last['sem'][1]:
+                bad.append('slots free %s of %s' % (last['sem'][0], last['sem'][1]))
+            for b_ in bad[:3]:
+                alarm(prop + ':limit-closed-end-not-complete', 'complete end: ' + b_, r, o)
+    codes, _ = core.coq_eval(prop + 'limit', HEADER_LIMIT, core.chunks(terms, 20), timeout=900)
+    for i, code in codes:
+        r, o = reqs[i], outs[i]
+        what = {7001: 'the implementation took a step that is not enabled in the model',
+                7002: 'the parent events issued differ from the model\'s for this schedule',
+                7003: 'the implementation has nothing left to do where the model has',
+                7004: 'the model has nothing left to do where the implementation has'}.get(code, 'observation differs at event %d' % (code - 1000))
+        alarm(prop + ':limit-closed-system-differs', 'Model/PoolLimit.v vs billiard.pool: ' + what, r, o)
+        if len(res.alarms) > 20:
+            break
+    res.add_cov(limit_closed_schedules=len(reqs), limit_closed_steps=steps, limit_closed_complete=nmax,
+                limit_closed_scans=nscans, limit_closed_timed_out_jobs=ntl, limit_closed_with_racy_scan=nracy,
+                limit_closed_racy_slot_leaks=nleak, limit_closed_racy_innocent_jobs_lost=ninnocent,
+                limit_closed_mismatches=len(codes))
+
+
 def shrink_history(pid, case, sig, rounds=40):
     """greedy one-event-removal minimisation of a history that triggers alarm `sig` on the
     implementation (every round: all one-event-shorter candidates in ONE driver run)"""
@@ -1564,6 +1785,7 @@ def mon_C01_unsent(case, obs):
 
 MONITORS['C01'].append(mon_C01_unsent)
 MONITORS['C10'].append(mon_C10_quiet_end)
+MONITORS['C10'].append(mon_known_C10_two_jobs)
 MONITORS['C01'].append(mon_C01_result_dropped)
 MONITORS['C01'].append(mon_C01_foreign_loss)
 MONITORS['C01'].append(mon_C01_terminated)
